@@ -92,6 +92,7 @@ class _Predict2DSpec:
 class Predict2DNumpy(Contract):
     functional = True
     target = VC + ":predict_2d_numpy"
+    dtype_variants = False  # private kernel: its callers hand it float64 arrays and buffers (their own integer-kind contracts, C04)
     stubs = {"greens_func_2d": VC + ":greens_func_2d"}
 
     def setup(self, B, cfg):
@@ -170,6 +171,7 @@ def _block_clauses(jac, e, n, fe, fn, md, nu, npts, nf):
 @register
 class Jacobian2DNumpy(Contract):
     target = VC + ":jacobian_2d_numpy"
+    dtype_variants = False  # private kernel: its callers hand it float64 arrays and buffers (their own integer-kind contracts, C04)
     stubs = {"greens_func_2d": VC + ":greens_func_2d"}
 
     def setup(self, B, cfg):
